@@ -41,7 +41,7 @@ var c19Seeds = []string{
 	`[a-z]+`, `\w+`, `\d+`, `[a-z]+[0-9]+`, `\w+@\w+`, `[a-c]+[b-d]+[a-c]+[x-z]+`, `[a-z]{2,3}[0-9]+`,
 	`[a-z]*[0-9]+`, `[a-z]?[0-9]`,
 	`^(\d+|UUID|hex32)`, `^(abc|x[0-9]+|[k-m]+)`, `^(?:ab|[c-e]+)`,
-	`^prefix.*suffix$`, `^/.*[\w-]+\.php$`, `^.*z$`, `^a.+b$`,
+	`^prefix.*suffix$`, `^/.*[\w-]+\.php$`, `^.*z$`, `^a.+b$`, `^/.+\s+x$`, `^a.+[\s,]+z$`, `^p.*[\n;]+s$`, `^a.+[\s]z$`, `^/.+[\w-]+\.php$`,
 	`.*\.txt`, `ERROR.*timeout`, `.*\.(txt|log)`, `(?m)^.*\.php`, `(?m)^/.*[\w-]+\.php`, `.*abc.*`,
 	`\d+\.\d+`, `[0-5]+\.[0-9]+`, `\d+x`, `\d{2,}-\d+`,
 	`a+$`, `x*$`, `[a-z]+foo$`, `.+foo`, `[^\s]+\.txt`, `\w+@\w+\.com`,
